@@ -504,6 +504,11 @@ package classifier
 //@ ghostvar nlSeen int
 //@ spec linesBounded(d *indexedDocument, n int) bool = (forall i int :: 0 <= i && i < len(d.Tokens) ==> d.Tokens[i].Line <= n) && (forall i int :: 0 <= i && i < len(d.Matches) ==> d.Matches[i].EndLine <= n)
 //@ func tokenizeStream
+//@   // C08: the decoder is given exactly the next bytes of the stream (nothing
+//@   // left over in the buffer from an earlier refill), and enough of them: at
+//@   // least the longest encoding (4 bytes) unless the stream has ended
+//@   callreq DecodeRune requires forall j int :: 0 <= j && j < len(arg_p) ==> arg_p[j] == streamByte(src, spos + j)
+//@   callreq DecodeRune requires len(arg_p) >= 4 || err != nil
 //@   ghostset spos = streamPos[src] atentry
 //@   uses SUBSLICE-REV
 //@   requires dict != nil && ((updateDict || !normalize) ==> wfDict(dict))
